@@ -722,8 +722,11 @@ fn show(m: &MObj) -> String {
 /// (e.g. `SetVr(US)` on a text attribute); for such attributes only presence, VR and structural
 /// validity are checked after writing, not the bytes.
 fn consistent(vr: &str, p: &MP) -> bool {
+    consistent_class(vr, p.class())
+}
+fn consistent_class(vr: &str, class: &str) -> bool {
     const TEXT: [&str; 17] = ["AE", "AS", "CS", "DA", "DS", "DT", "IS", "LO", "LT", "PN", "SH", "ST", "TM", "UC", "UI", "UR", "UT"];
-    match p.class() {
+    match class {
         "empty" => true,
         "text" => TEXT.contains(&vr) || vr == "UN" || vr == "OB",
         "u8" => matches!(vr, "OB" | "UN"),
@@ -752,7 +755,7 @@ struct XE {
 }
 #[derive(Clone, Debug)]
 enum XV {
-    Prim { bytes: Vec<u8>, confused: bool },
+    Prim { bytes: Vec<u8>, confused: bool, class: &'static str },
     Seq(Vec<Vec<XE>>),
     Pix { offsets: Vec<u32>, frags: Vec<Vec<u8>> },
 }
@@ -766,7 +769,7 @@ fn xcanon(o: &InMemDicomObject) -> Vec<XE> {
                     if e.vr() == VR::SQ && p.multiplicity() == 0 {
                         XV::Seq(vec![])
                     } else {
-                        XV::Prim { bytes: prim_canon_bytes(e.vr(), p), confused: !consistent(&e.vr().to_string(), &abstract_prim(p)) }
+                        XV::Prim { bytes: prim_canon_bytes(e.vr(), p), confused: !consistent(&e.vr().to_string(), &abstract_prim(p)), class: abstract_prim(p).class() }
                     }
                 }
                 Value::Sequence(s) => XV::Seq(s.items().iter().map(xcanon).collect()),
@@ -805,8 +808,11 @@ fn xcompare(expected: &[XE], got: &[RElem], implicit: bool, check_vr: bool, dict
             return err("vr", format!("{:04X?}: expected one of {:?} got {}", e.tag, want_vr.iter().map(|v| rds::vr_str(*v)).collect::<Vec<_>>(), rds::vr_str(g.vr)));
         }
         match (&e.val, &g.val) {
-            (XV::Prim { bytes, confused }, RVal::Prim(gb)) => {
-                if !*confused && !eq_padded(bytes, gb) {
+            (XV::Prim { bytes, confused, class }, RVal::Prim(gb)) => {
+                // in implicit VR the value is read under the dictionary VR: a value whose kind does not
+                // fit that VR (after SetVr on a dictionary tag) is a caller-made confusion as well
+                let confused = *confused || (implicit && check_vr && !consistent_class(&rds::vr_str(g.vr), class));
+                if !confused && !eq_padded(bytes, gb) {
                     return err("value", format!("{:04X?} {}: expected {:02X?} got {:02X?}", e.tag, rds::vr_str(e.vr), bytes, gb));
                 }
             }
